@@ -62,7 +62,12 @@ def bind_args(I, fi, args, kwargs, module_frame):
         bound[n] = v
     rest = args[len(names) :]
     if a.vararg is not None:
-        bound[a.vararg.arg] = VTuple(rest)
+        if len(rest) == 1 and isinstance(rest[0], StarArg):
+            bound[a.vararg.arg] = rest[0].sv      # f(*seq): the parameter is (a tuple with the items of) that sequence
+        elif any(isinstance(x, StarArg) for x in rest):
+            raise Unsupported("mixing *sequence-of-unknown-length with other positional arguments")
+        else:
+            bound[a.vararg.arg] = VTuple(rest)
     kw = dict(kwargs)
     for n in names[len(args) :]:
         if n in kw:
@@ -337,6 +342,9 @@ def apply_contract(I, con, args, kwargs, fi=None, callee_label=None):
     typed_bound = {}
     for k, v in bound.items():
         pty = con.params.get(k) or con.params.get("*" + k) or con.params.get("**" + k)
+        if isinstance(pty, TSeq) and isinstance(v, (VTuple, VList)):
+            # a display of known length passed where the contract speaks of a sequence: the same items as a heap sequence
+            v = I.B.materialise_seq(I, v, pty)
         if pty is not None and isinstance(v, SV) or (pty is not None and isinstance(pty, T) and not isinstance(v, (VTuple, VDict, VList, Closure, ClassInfo))):
             sv = ctx.to_val(v)
             pty = ctx.resolve_ty(pty)
@@ -353,7 +361,7 @@ def apply_contract(I, con, args, kwargs, fi=None, callee_label=None):
     if con.delegate is not None:
         return con.delegate(I, **typed_bound)
     apply_writes(I, con, spec, views)
-    if con.has_events and con.emits is None:
+    if con.has_events and con.emits is None and con.emits_after is None:
         # the callee may append events: havoc the trace, keeping the prefix
         ntr, nlen = fresh("tr", EvArr), fresh("trlen", z3.IntSort())
         k = z3.Int("tk")
@@ -382,7 +390,7 @@ def apply_contract(I, con, args, kwargs, fi=None, callee_label=None):
             con.emits_after(post, ctx, "return", res, **pviews)
         return res
     cls = exc_class_of(I, which)
-    exc = I.sym_exception(cls, short(which))
+    exc = I.make_exception(cls, []) if con.exact_raises else I.sym_exception(cls, short(which))
     _attach_trace(post, ctx, tr_old_len)
     pviews = views_of(post, typed_bound, new_heap)
     ev = post.view(exc, ctx.snapshot())
